@@ -123,8 +123,10 @@ def main():
     meta['valid'] = valid
     d = ROOT / 'seeded' / name
     d.mkdir(parents=True, exist_ok=True)
-    shutil.copy(patch, d / 'patch.diff')
-    shutil.copy(demo, d / 'demo.py')
+    if patch.resolve() != (d / 'patch.diff').resolve():
+        shutil.copy(patch, d / 'patch.diff')
+    if demo.resolve() != (d / 'demo.py').resolve():
+        shutil.copy(demo, d / 'demo.py')
     if readme:
         (d / 'README.md').write_text(readme)
     (d / 'meta.json').write_text(json.dumps(meta, indent=1))
